@@ -120,7 +120,7 @@ def classify(falcon, h, call):
         if isinstance(e, falcon.MediaMalformedError):
             return [2, k, 2]
         return [2, k, 3]
-    if v is DEFAULT:
+    if v is CUR['dflt'] and (CUR['passed'] or CUR.get('last_passed')):
         return [1]
     if id(v) in h.objs and h.objs[id(v)][1] is v:
         return [0, h.objs[id(v)][0]]
@@ -128,6 +128,21 @@ def classify(falcon, h, call):
 
 
 DEFAULT = object()
+# the value passed as default_when_empty is drawn per call from falsy values too (an explicit None must
+# still count as "a default was passed"); identity is what is checked
+CUR = {'dflt': DEFAULT, 'passed': False}
+
+
+def pick_default(rng, avoid=()):
+    cands = [None, False, 0, '', {}, [], object()]
+    rng.shuffle(cands)
+    for c in cands:
+        if not any(type(c) is type(a) and c == a for a in avoid):
+            CUR['dflt'] = c
+            CUR.setdefault('log', []).append(repr(c))
+            return c
+    CUR['dflt'] = object()
+    return CUR['dflt']
 
 
 def session_wsgi(falcon, testing, script, exhaust, ds, body, rng):
@@ -148,7 +163,10 @@ def session_wsgi(falcon, testing, script, exhaust, ds, body, rng):
         if d == 2:      # the .media property
             obs.append(classify(falcon, h, lambda: req.media))
         elif d == 1:
-            obs.append(classify(falcon, h, lambda: req.get_media(default_when_empty=DEFAULT)))
+            dv = pick_default(rng)
+            CUR['passed'] = True
+            obs.append(classify(falcon, h, lambda: req.get_media(default_when_empty=dv)))
+            CUR['passed'] = False
         else:
             obs.append(classify(falcon, h, lambda: req.get_media()))
         if i == 0:
@@ -197,9 +215,16 @@ def session_asgi(falcon, testing, script, exhaust, ds, body, rng):
             if d == 2:
                 return await req.media
             if d == 1:
-                return await req.get_media(default_when_empty=DEFAULT)
+                return await req.get_media(default_when_empty=CUR['dflt'])
             return await req.get_media()
-        return run_coro(go())
+        if d == 1:
+            pick_default(rng)
+        CUR['passed'] = d == 1
+        CUR['last_passed'] = d == 1
+        try:
+            return run_coro(go())
+        finally:
+            CUR['passed'] = False
 
     for i, d in enumerate(ds):
         before = state['calls']
@@ -238,11 +263,14 @@ def check_sessions(ctx, falcon, testing, model):
     for _ in range(n):
         script = [rng.choice(['ok', 'nf', 'mal', 'other']) for _ in range(rng.randint(1, 3))]
         rnd.append((script, rng.random() < 0.5, [rng.choice([0, 1, 2]) for _ in range(rng.randint(0, 8))]))
+    dlog = []
     for script, ex, ds in small + rnd:
         for kind in ('wsgi', 'asgi'):
             body = bytes(rng.randrange(256) for _ in range(rng.randint(2, 40)))
             f = session_wsgi if kind == 'wsgi' else session_asgi
+            CUR['log'] = []
             obs, nc, nr, nx = f(falcon, testing, script, ex, ds, body, rng)
+            dlog.append(list(CUR['log']))
             # the model's exhaust counter: 1 iff the handler asks for it
             dsb = [1 if d == 1 else 0 for d in ds]
             cases.append([0, wire_script(script), ex, dsb])
@@ -253,14 +281,14 @@ def check_sessions(ctx, falcon, testing, model):
         kind, script, ex, ds, obs, nc, nr, nx = m
         ocases.append([1, wire_script(script)[0], ex, c[3], obs, nc, nr, nx])
     fails = model.run_many(ocases)
-    for c, m, o, f in zip(cases, metas, outs, fails):
+    for c, m, o, f, dl in zip(cases, metas, outs, fails, dlog):
         kind, script, ex, ds, obs, nc, nr, nx = m
         ctx.note_case(('sess', kind, tuple(script), ex, tuple(ds)), len(ds) >= 2)
         ctx.count('session-' + kind)
         detail = {'interface': kind, 'handler_script': script, 'exhaust_stream': ex,
                   'calls(0=get_media,1=with default,2=.media)': ds, 'observed': obs,
                   'handler_invocations': nc, 'stream_reads': nr, 'exhaust_indicator': nx,
-                  'model': o}
+                  'default_when_empty values passed (in call order)': dl, 'model': o}
         if f:
             ctx.violation('media-cache-clause', dict(detail, clauses_failed=f,
                           clause_names={1: 'same object / same error / default only for not-found',
@@ -338,7 +366,7 @@ def deserialize_real(falcon, testing, kind, ctype, body, rng, calls=(0,)):
                                                              'Content-Length': str(len(body))})
         env['wsgi.input'] = CountingInput(body)
         req = falcon.Request(env, options=plus_json_options(falcon))
-        get = lambda d: req.get_media(default_when_empty=DEFAULT) if d else req.get_media()
+        get = lambda d: req.get_media(default_when_empty=CUR['dflt']) if d else req.get_media()
     else:
         chunks = chunked(rng, body)
         st = {'i': 0}
@@ -355,13 +383,20 @@ def deserialize_real(falcon, testing, kind, ctype, body, rng, calls=(0,)):
 
         def get(d):
             async def go():
-                return await (req.get_media(default_when_empty=DEFAULT) if d else req.get_media())
+                return await (req.get_media(default_when_empty=CUR['dflt']) if d else req.get_media())
             return run_coro(go())
     res = []
+    avoid = []
+    try:
+        avoid = [json.loads(body.decode())]       # a default that cannot be mistaken for the parsed document
+    except Exception:  # noqa
+        pass
     for d in calls:
+        if d:
+            pick_default(rng, avoid)
         try:
             v = get(d)
-            res.append(('default',) if v is DEFAULT else ('ok', v))
+            res.append(('default', repr(CUR['dflt'])) if d and v is CUR['dflt'] else ('ok', v))
         except falcon.MediaNotFoundError as e:
             res.append(('nf', e))
         except falcon.MediaMalformedError as e:
@@ -392,7 +427,12 @@ def check_handlers(ctx, falcon, testing, model):
             bodies.append(('latin1', None, json.dumps('é').encode('latin-1')))
     bodies += [('empty', None, b''), ('ws', None, b'  '), ('nan', None, b'NaN'), ('bom', None, b'\xef\xbb\xbf{}'),
                ('deep', None, b'[' * 100000), ('deepvalid', None, b'[' * 100000 + b']' * 100000),
-               ('garbage', None, b'\x00\x01'), ('dup', None, b'{"a":1,"a":2}')]
+               ('garbage', None, b'\x00\x01'), ('dup', None, b'{"a":1,"a":2}'),
+               # undecodable with a PLAIN ValueError (CPython's 4300-digit int-string limit), not a JSONDecodeError
+               ('bigint', None, b'1' * 4301), ('bigint', None, b'-' + b'9' * 4301), ('bigint', None, b'7' * 6000),
+               ('bigint-nested', None, b'[1, {"a": [' + b'3' * 4301 + b']}]'),
+               ('bigint-nested', None, b'{"k": -' + b'8' * 5000 + b', "z": null}'),
+               ('bigint-ok', None, b'[' + b'1' * 4300 + b']')]
     cases, metas = [], []
     for label, doc, body in bodies:
         for kind in ('wsgi', 'asgi'):
@@ -508,6 +548,84 @@ def check_handlers(ctx, falcon, testing, model):
             if res[1][0] != 'ok' or res[1][1] is not res[0][1]:
                 ctx.violation('media-cache-clause', dict(detail, what='second get_media did not return the same object'),
                               key='form-later')
+
+
+def check_custom_loads(ctx, falcon, testing, model):
+    """JSONHandler(loads=f) with f raising ValueError, subclasses of it, and other exceptions: any ValueError
+    is a 400-class malformed-media error, anything else propagates (glue model: LValueError -> EMalformed,
+    LOtherError -> EOther)."""
+    import falcon.asgi
+    rng = ctx.rng
+
+    class MyValueError(ValueError):
+        pass
+
+    def raiser(exc):
+        def loads(s):
+            raise exc
+        return loads
+    variants = [('ValueError', raiser(ValueError('custom')), 1), ('ValueError-subclass', raiser(MyValueError('x')), 1),
+                ('JSONDecodeError', raiser(json.JSONDecodeError('m', 'doc', 0)), 1),
+                ('UnicodeDecodeError', raiser(UnicodeDecodeError('utf-8', b'x', 0, 1, 'r')), 1),
+                ('TypeError', raiser(TypeError('t')), 2), ('KeyError', raiser(KeyError('k')), 2),
+                ('ok', lambda s_: {'parsed': s_}, 0)]
+    cases, meta = [], []
+    for label, loads, lres in variants:
+        for kind in ('wsgi', 'asgi'):
+            for body in (b'{"a": 1}', b'x', b'', b'\xff'):
+                h = falcon.media.JSONHandler(loads=loads)
+                opts = falcon.RequestOptions()
+                opts.media_handlers['application/json'] = h
+                hdrs = {'Content-Type': 'application/json', 'Content-Length': str(len(body))}
+                if kind == 'wsgi':
+                    env = testing.create_environ(method='POST', headers=hdrs)
+                    env['wsgi.input'] = CountingInput(body)
+                    req = falcon.Request(env, options=opts)
+                    call = req.get_media
+                else:
+                    st = {'done': False}
+
+                    async def receive(st=st, body=body):
+                        if not st['done']:
+                            st['done'] = True
+                            return {'type': 'http.request', 'body': body, 'more_body': False}
+                        return {'type': 'http.disconnect'}
+                    req = falcon.asgi.Request(testing.create_scope(method='POST', headers=hdrs), receive, options=opts)
+
+                    def call(req=req):
+                        async def go():
+                            return await req.get_media()
+                        return run_coro(go())
+                try:
+                    call()
+                    obs = 0
+                except falcon.MediaNotFoundError:
+                    obs = 1
+                except falcon.MediaMalformedError:
+                    obs = 2
+                except BaseException as e:  # noqa
+                    obs = 3
+                    err = repr(e)
+                empty = len(body) == 0
+                try:
+                    body.decode()
+                    u = True
+                except UnicodeDecodeError:
+                    u = False
+                cases.append([3, empty, u, lres, obs])
+                meta.append((label, kind, body, lres, obs))
+    outs = model.run_many(cases)
+    for (label, kind, body, lres, obs), f in zip(meta, outs):
+        ctx.note_case(('custom-loads', label, kind, body), True)
+        ctx.count('json-custom-loads-' + label)
+        detail = {'loads_raises': label, 'interface': kind, 'body': repr(body), 'outcome(0=value,1=not-found,2=malformed,3=other)': obs}
+        if f:
+            undecodable = len(body) > 0 and (lres == 1 or not all(b < 128 for b in body))
+            if obs == 3 and undecodable:
+                ctx.violation('json-undecodable-not-400', dict(detail, error='custom loads raising ' + label), key='custom-loads-500')
+            else:
+                ctx.violation('json-glue-differs', dict(detail, broken='C12.json_deserialize_corr'), found_input=False,
+                              key='custom-loads-glue')
 
 
 # ------------------------------------------------------------------ response render cache
@@ -1731,6 +1849,7 @@ def main(ctx):
                         'finite floats: round trip checked differentially only']
     check_sessions(ctx, falcon, testing, model)
     check_handlers(ctx, falcon, testing, model)
+    check_custom_loads(ctx, falcon, testing, model)
     check_response(ctx, falcon, model)
     check_e2e(ctx, falcon, testing)
     check_e2e_reassign(ctx, falcon, testing)
